@@ -430,7 +430,7 @@ def HdrFits (src : HdrSource) (f0 : Nat) : Prop :=
   (hdrFirstFrames src f0).length ≤ src.lengths.length
 
 theorem hdr10plusConfig_cases (c : Config) (src : HdrSource) :
-    (hdr10plusConfig c src = .panic ∧ ¬ ∃ f0, HdrFits src f0) ∨
+    (hdr10plusConfig c src = .error ∧ ¬ ∃ f0, HdrFits src f0) ∨
     (∃ f0, hdr10plusConfig c src = .ok (hdrResult c src f0) ∧ HdrFits src f0) := by
   unfold hdr10plusConfig
   cases hf : src.firsts with
